@@ -18,7 +18,7 @@
 From Coq Require Import ZArith Lia.
 From CPL Require Import Model.Base Model.Rules Model.Engine Model.Evolve2D Model.Sandpile.
 From CPL Require Import Model.Memo2D.
-From CPL Require Import Proofs.Evolve2DProofs Proofs.SandpileProofs Proofs.SandpileMemoProofs.
+From CPL Require Import Proofs.Evolve2DProofs Proofs.SandpileProofs Proofs.SandpileMemoProofs Proofs.SandpileClosedProofs.
 Local Open Scope Z_scope.
 
 (* the rule object on the torus block of a cell: closed boundary first, then the schedule, then toppling *)
@@ -271,6 +271,47 @@ Example C14_closed_memo_outside_contract :
   plain <> memo.
 Proof. cbv zeta. split; [|split; [|split]]; try (vm_compute; reflexivity). discriminate. Qed.
 
+(* ------------------------------------------------------------------ closed boundary: the cell formula *)
+(* closed boundary, no addition at this step, ANY entry grid: every cell that _is_in_boundary accepts is 0
+   after the step, every other cell gets the BTW toppling value (neighbours as torus positions) *)
+Theorem C14_sandpile_is_btw_closed : forall rows cols adds ty g R C t u,
+  wf_grid R C g -> (1 <= R)%nat -> (1 <= C)%nat -> no_addition_at adds t ->
+  let g' := snd (step_plain2d (sandpile_rule rows cols true adds) store_id 1 ty u g t) in
+  wf_grid R C g' /\
+  forall row col, (row < R)%nat -> (col < C)%nat ->
+    cell g' row col =
+      if in_boundary rows cols (row, col) then 0
+      else cell g row col - 4 * tp (cell g row col)
+           + tp (cell g (up R row) col) + tp (cell g row (up C col))
+           + tp (cell g row (dn C col)) + tp (cell g (dn R row) col).
+Proof. exact sandpile_is_btw_closed. Qed.
+
+(* the documented use Sandpile(R, C, True): for an interior cell the four positions are its grid neighbours *)
+Theorem C14_sandpile_is_btw_closed_interior : forall adds ty g R C t u,
+  wf_grid R C g -> (1 <= R)%nat -> (1 <= C)%nat -> no_addition_at adds t ->
+  let g' := snd (step_plain2d (sandpile_rule R C true adds) store_id 1 ty u g t) in
+  forall row col, (row < R)%nat -> (col < C)%nat ->
+    (in_boundary R C (row, col) = true -> cell g' row col = 0) /\
+    (in_boundary R C (row, col) = false ->
+       cell g' row col = cell g row col - 4 * tp (cell g row col)
+         + tp (cell g (row - 1) col) + tp (cell g row (col - 1))
+         + tp (cell g row (col + 1)) + tp (cell g (row + 1) col)).
+Proof. exact sandpile_is_btw_closed_interior. Qed.
+
+(* non-vacuity of the closed evolution over several steps (Moore neighbourhood: same five entries read):
+   totals 17 -> 11 -> 9 -> 7 *)
+Example C14_nonvacuous_closed_steps :
+  let g := [[0; 0; 0; 0]; [0; 5; 4; 0]; [0; 1; 7; 0]; [0; 0; 0; 0]] in
+  wf_grid 4 4 (last [g] []) /\ boundary_zero 4 4 4 4 (last [g] []) /\ no_addition_in [] 1 (4 - 1) /\
+  evolve2d_plain (sandpile_rule 4 4 true []) store_id 1 Moore tt [g] 4
+  = Ok (tt, [g; [[0; 0; 0; 0]; [0; 2; 2; 0]; [0; 3; 4; 0]; [0; 0; 0; 0]];
+                [[0; 0; 0; 0]; [0; 2; 3; 0]; [0; 4; 0; 0]; [0; 0; 0; 0]];
+                [[0; 0; 0; 0]; [0; 3; 3; 0]; [0; 0; 1; 0]; [0; 0; 0; 0]]]) /\
+  in_boundary 4 4 (1, 2)%nat = false /\ in_boundary 4 4 (3, 2)%nat = true.
+Proof.
+  cbv zeta. split; [wf|]. split; [by_cells4 Hb|]. split; [intros a []|]. repeat split; vm_compute; reflexivity.
+Qed.
+
 Print Assumptions C14_rule_on_block.
 Print Assumptions C14_read_entries_unmasked.
 Print Assumptions C14_sandpile_is_btw.
@@ -288,5 +329,7 @@ Print Assumptions C14_stable_forever.
 Print Assumptions C14_evolution_conserves.
 Print Assumptions C14_evolution_closed.
 Print Assumptions C14_sandpile_conserves_all_modes.
-From CPL Require Import gen.GenFuns GenProps.GenFunsEquivC14 GenProps.C14Src. (* source tie: gen/GenFuns.v is regenerated from sandpile.py on every run *)
+Print Assumptions C14_sandpile_is_btw_closed.
+Print Assumptions C14_sandpile_is_btw_closed_interior.
+From CPL Require Import gen.GenFuns_C14 GenProps.GenFunsEquivC14 GenProps.C14Src. (* source tie: gen/GenFuns_C14.v is regenerated from sandpile.py on every run *)
 Theorem C14_source_tie : (forall (rows cols : nat) (c : nat * nat), src_sandpile_is_in_boundary (Z.of_nat rows) (Z.of_nat cols) (zcell c) = in_boundary rows cols c) /\ (forall (rows cols : nat) (closed : bool) (adds : list addition) (n : nbhd2) (c : nat * nat) (t : nat), src_sandpile_call (Z.of_nat rows) (Z.of_nat cols) closed (map zaddition adds) (nb_vals n) (zcell c) (Z.of_nat t) = sandpile_call rows cols closed adds n c t). Proof. exact C14_source_translation_agrees. Qed. Print Assumptions C14_source_tie.
